@@ -568,10 +568,14 @@ def itext_ids(xform: str):
     return ids
 
 
+class NotWellFormed(Exception):
+    pass
+
+
 def observe_binds(xform: str):
     tree, err = xmlutil.expat_tree(xform)
     if tree is None:
-        raise vcore.Infra("XForm does not parse: " + str(err))
+        raise NotWellFormed(str(err))
     out = []
 
     def walk(el, in_model):
@@ -601,7 +605,13 @@ def form_case(ctx, form, arows, meta):
     ctx.count("fragment:" + ("inside" if m["outcome"] != "unsupported" else "outside"))
     nontrivial = False
     if r["ok"]:
-        obs = observe_binds(r["xform"])
+        try:
+            obs = observe_binds(r["xform"])
+        except NotWellFormed as e:
+            # no XML reader can read any bind of this form: the cells did not reach a bind at all
+            ctx.fail(Failure("xform-not-wellformed", f"the accepted form's XForm does not parse ({e}); no bind can be read", case))
+            ctx.record(case, False)
+            return
         obs_pairs = [[o[0], o[1]] for o in obs]
         # ---- correspondence (exact: order of binds, order of attributes)
         if m["outcome"] == "ok":
@@ -823,7 +833,11 @@ def replay(ctx, payload, bs):
         form = case["form"]
         r = impl.run(form)
         if r["ok"]:
-            obs = observe_binds(r["xform"])
+            try:
+                obs = observe_binds(r["xform"])
+            except NotWellFormed as e:
+                ctx.fail(Failure("xform-not-wellformed", str(e), case))
+                return False
             exp = ctx.driver.call("binds.spec", root="data", tops=case["tops"], rows=case["spec_rows"])
             oracle(ctx, case, obs, exp, itext_ids(r["xform"]))
             rows = [[[k, v] for k, v in row.items() if v not in (None, "")] for row in form["survey"]]
